@@ -13,9 +13,13 @@ import vf
 from inc_common import NAMES, compare_load, render_file
 
 
-def cfg(n, maxops, initmode, editmode):
-    return ("CONSTANTS N = %d  Big = {}  MaxOps = %d InitMode = \"%s\" EditMode = \"%s\"\n"
-            "INIT Init\nNEXT Next\nINVARIANTS CacheNeverStale Emit\nCHECK_DEADLOCK FALSE\n") % (n, maxops, initmode, editmode)
+def cfg(n, maxops, initmode, editmode, lim=None):
+    return ("CONSTANTS N = %d  Big = {}  Lim = %d  MaxOps = %d InitMode = \"%s\" EditMode = \"%s\"\n"
+            "INIT Init\nNEXT Next\nINVARIANTS CacheNeverStale Emit\nCHECK_DEADLOCK FALSE\n") % (n, lim or n + 1, maxops, initmode, editmode)
+
+
+def srv_cfg(n, maxops):
+    return ("CONSTANTS N = %d  Big = {}  MaxOps = %d\nINIT Init\nNEXT Next\nINVARIANTS Emit\nCHECK_DEADLOCK FALSE\n") % (n, maxops)
 
 
 def gen(run):
@@ -33,7 +37,90 @@ def gen(run):
         r = run.tlc("MCIncludeHist", cfg(n, k, "any", "any"), mode="simulate", simulate=num, depth=k + 1,
                     workers=1, timeout=1500)
         hs += [("sim%d_%d" % (n, k), h) for h in r.json]
+    # the same with a depth limit that bites (2 and 1): cache hits must not bypass the limit
+    for n, lim, k, im, em in ([(3, 2, 3, "menu", "menu"), (4, 2, 3, "menu", "menu")] if not thorough else [(3, 2, 4, "menu", "menu"), (4, 2, 3, "menu", "menu"), (4, 3, 3, "menu", "menu"), (3, 1, 3, "menu", "menu")]):
+        r = run.tlc("MCIncludeHist", cfg(n, k, im, em, lim=lim), workers=1, timeout=1500)
+        hs += [("bfs%d_%d_lim%d" % (n, k, lim), h) for h in r.json]
+    for n, lim, k, num in ([(4, 2, 6, 500)] if not thorough else [(4, 2, 6, 8000), (4, 3, 6, 4000)]):
+        r = run.tlc("MCIncludeHist", cfg(n, k, "any", "any", lim=lim), mode="simulate", simulate=num, depth=k + 1, workers=1, timeout=1500)
+        hs += [("sim%d_%d_lim%d" % (n, k, lim), h) for h in r.json]
     return hs
+
+
+def gen_server(run):
+    thorough = run.tier == "thorough"
+    hs = []
+    for n, k, num in ([(3, 7, 400), (4, 8, 300)] if not thorough else [(3, 8, 6000), (4, 10, 4000)]):
+        r = run.tlc("IncludeServer", srv_cfg(n, k), mode="simulate", simulate=num, depth=k + 1, workers=1, timeout=1500)
+        seen = set()
+        for h in r.json:
+            key = json.dumps(h, sort_keys=True)
+            if key not in seen:
+                seen.add(key)
+                hs.append(("srv%d_%d" % (n, k), h))
+    return hs
+
+
+def srv_to_harness(idx, h, workspace):
+    disk = h[0]["disk"]
+    n = len(disk)
+    plain = lambda dirs: ["plain"] * len(dirs)
+    files = {NAMES[f]: render_file(f, disk[f - 1], plain(disk[f - 1]), 1, set(), lambda f, i: 0) for f in range(1, n + 1)}
+    ops = []
+    for st in h[1:]:
+        if st["op"] == "close":
+            ops.append({"op": "close", "file": NAMES[st["file"]]})
+        else:
+            f = st["file"]
+            ops.append({"op": st["op"], "file": NAMES[f], "content": render_file(f, st["list"], plain(st["list"]), st["ver"], set(), lambda f, i: 0)})
+    return {"id": str(idx), "files": files, "workspace": workspace, "ops": ops}
+
+
+def srv_evaluate(h, res):
+    if "panic" in res:
+        return [("panic", "server panicked: " + res["panic"], 0)]
+    divs = []
+    for k, (st, step) in enumerate(zip(h[1:], res["steps"])):
+        if st["op"] not in ("open", "change"):
+            continue
+        sh, fr = step["shared"], step["fresh"]
+        if sh["nil"]:
+            divs.append(("server-resolved-nil", "step %d %s(%s): the server resolved nothing" % (k + 1, st["op"], NAMES[st["file"]]), k + 1))
+            break
+        a, b = canon(sh), canon(fr)
+        a["errs"] = b["errs"] = None       # the resolved tree carries no diagnostics; they are compared through the publication
+        if a != b:
+            if a["files"] != b["files"] or a["order"] != b["order"]:
+                sig = "server-tree-differs-from-fresh-load"
+                what = "server files %s, fresh loader files %s" % (a["files"], b["files"])
+            else:
+                stale = [f for f in b["content"] if a["content"].get(f) != b["content"].get(f)]
+                sig = "server-serves-stale-included-file"
+                what = "included file(s) %s: server has %s, a fresh load of the current files has %s" % (
+                    stale, [a["content"].get(f, {}).get("marks") for f in stale], [b["content"][f]["marks"] for f in stale])
+            divs.append((sig, "step %d %s(%s): %s" % (k + 1, st["op"], NAMES[st["file"]], what), k + 1))
+            break
+        # contract: versions of every loaded file
+        exp = st["expect"]
+        want_files = sorted(NAMES[g] for g in exp["loaded"] if g != st["file"])
+        if sorted(sh["files"]) != want_files:
+            divs.append(("spec:server-files", "step %d: server files %s, contract %s" % (k + 1, sh["files"], want_files), k + 1))
+            break
+        for g in exp["loaded"]:
+            if g == st["file"]:
+                continue
+            marks = sh["content"][NAMES[g]]["marks"]
+            want = "file %d version %d" % (g, exp["versions"][g - 1])
+            if marks != [want]:
+                divs.append(("server-serves-stale-included-file", "step %d %s(%s): %s is served as %s, on disk it is %r" % (
+                    k + 1, st["op"], NAMES[st["file"]], NAMES[g], marks, want), k + 1))
+                break
+        fresh_err_lines = sorted(e[0] for e in canon(fr)["errs"])
+        if sorted(step.get("diagLines") or []) != fresh_err_lines:
+            divs.append(("server-include-diagnostics-differ", "step %d %s(%s): published include diagnostics on lines %s, fresh load reports lines %s" % (
+                k + 1, st["op"], NAMES[st["file"]], sorted(step.get("diagLines") or []), fresh_err_lines), k + 1))
+            break
+    return divs
 
 
 def to_harness(idx, h):
@@ -57,7 +144,8 @@ def to_harness(idx, h):
         elif st["op"] == "clear":
             ops.append({"op": "clear"})
         disks.append(disk)
-    return {"id": str(idx), "files": files, "fresh": True, "depth": 0, "size": 0, "ops": ops}, disks
+    lim = h[0].get("lim", 0)
+    return {"id": str(idx), "files": files, "fresh": True, "depth": lim if 0 < lim <= n else 0, "size": 0, "ops": ops}, disks
 
 
 def canon(p):
@@ -93,6 +181,10 @@ def evaluate(h, disks, res):
             break   # report the first diverging step of a history
         # contract (also C10's oracle) — a disagreement of BOTH loaders with the spec is reported separately
         dc = compare_load(disks[k], st["expect"], sh, root=st["file"])
+        if dc and st.get("expect2") and st["expect2"] != st["expect"]:
+            dc2 = compare_load(disks[k], st["expect2"], sh, root=st["file"])
+            if not dc2:
+                dc = []
         if dc:
             divs.append(("spec:" + dc[0][0], "step %d load(%s): %s" % (k + 1, NAMES[st["file"]], dc[0][1]), k + 1))
             break
@@ -104,7 +196,7 @@ def main(args):
     if args.replay:
         with open(args.replay) as f:
             rp = json.load(f)
-        hs = [(rp["case"]["family"], rp["case"]["history"])]
+        hs = [] if rp["case"].get("server") else [(rp["case"]["family"], rp["case"]["history"])]
     else:
         hs = gen(run)
     built = [to_harness(i, h) for i, (_, h) in enumerate(hs)]
@@ -115,7 +207,23 @@ def main(args):
         run.count(vf.digest(h), loads >= 2 or (loads >= 1 and edits_before_load))
         for sig, what, _ in evaluate(h, disks, res):
             run.diverge(sig, what, {"family": fam, "history": h, "harness_case": hc}, res)
-    run.traces_validated = len(hs)
+    # ---- server level: open / change / save / close histories, with and without a workspace root
+    srv = [] if args.replay else gen_server(run)
+    if args.replay and rp["case"].get("server"):
+        srv = [(rp["case"]["family"], rp["case"]["history"])]
+    scases = []
+    for i, (fam, h) in enumerate(srv):
+        for ws in ([rp["case"]["workspace"]] if args.replay else [False, True]):
+            scases.append((fam, h, ws))
+    sres = run.harness("srvinclude", [srv_to_harness(i, h, ws) for i, (_, h, ws) in enumerate(scases)]) if scases else []
+    for (fam, h, ws), res in zip(scases, sres):
+        saves = any(st["op"] == "save" for st in h[1:])
+        run.count(vf.digest([h, ws]), saves)
+        for sig, what, _ in srv_evaluate(h, res):
+            run.diverge(sig, what + (" [workspace root]" if ws else " [no workspace root]"), {"family": fam, "history": h, "server": True, "workspace": ws}, res)
+    if srv:
+        run.sample({"server_history": srv[0][1]})
+    run.traces_validated = len(hs) + len(scases)
     run.sample({"history": hs[0][1]})
     run.sample({"history": hs[-1][1]})
     run.rule = ("one case per history generated by TLC from MCIncludeHist (exhaustive over shape/edit menus for short histories; "
@@ -129,6 +237,9 @@ def main(args):
 
 def confirm(run, d):
     h = d["case"]["history"]
+    if d["case"].get("server"):
+        res = run.harness("srvinclude", [srv_to_harness(0, h, d["case"]["workspace"])])[0]
+        return any(sig == d["sig"] for sig, _, _ in srv_evaluate(h, res))
     hc, disks = to_harness(0, h)
     res = run.harness("include", [hc])[0]
     return any(sig == d["sig"] for sig, _, _ in evaluate(h, disks, res))
